@@ -568,6 +568,9 @@ func (a *vMemAdapter) vmemSubKeys() []string {
 	return keys
 }
 
+// order of the names OwnTopics returns, when a harness wants a particular one
+var vmemTopicLess func(a, b string) bool
+
 func (a *vMemAdapter) vmemTopicNames() []string {
 	names := make([]string, 0, len(a.Topics))
 	for k := range a.Topics {
@@ -1959,6 +1962,10 @@ func (a *vMemAdapter) OwnTopics(uid types.Uid) ([]string, error) {
 		if types.ParseUid(a.Topics[name].Owner) == uid {
 			names = append(names, name)
 		}
+	}
+	if vmemTopicLess != nil {
+		// no order is promised (MySQL: none asked for); a harness may fix one
+		sort.SliceStable(names, func(i, j int) bool { return vmemTopicLess(names[i], names[j]) })
 	}
 	return names, nil
 }
